@@ -108,6 +108,26 @@ func vhC21HostClient() {
 	if isTLS {
 		addr = "a.co:443"
 	}
+	if isTLS && vBool("addressWithoutServerName") {
+		// no TLS server name can be derived from this address and none is
+		// configured: such a client can never connect, and must not fall back
+		// to plaintext on a later attempt
+		hc := &HostClient{Addr: "::1", IsTLS: true, Dial: nw.Dial}
+		for i := 0; i < 3; i++ {
+			var req Request
+			var resp Response
+			req.SetRequestURI("https://a.co/marker0")
+			hc.Do(&req, &resp) //nolint:errcheck
+		}
+		raw := false
+		for _, c := range nw.conns {
+			if vcContains(c.wrote, "/marker0") {
+				raw = true
+			}
+		}
+		vAssert("https-request-never-on-a-raw-connection", !raw)
+		return
+	}
 	hc := &HostClient{Addr: addr, IsTLS: isTLS, Dial: nw.Dial}
 	scheme := c21Scheme("scheme")
 	var req Request
